@@ -60,5 +60,5 @@ for f in doc['findings']:
 doc['fixed']=[f['record'] for f in doc['findings'] if f['status']=='fixed']
 json.dump(doc,open(p,'w'),indent=1)
 import os
-missing=[f['witness'] for f in doc['findings'] if not os.path.exists('/verif/'+f['witness'])]
+missing=[f['witness'] for f in doc['findings'] if f['witness'] and not os.path.exists('/verif/'+f['witness'])]
 print(len(doc['findings']),'entries;', len(doc['fixed']),'fixed; missing witnesses:',missing)
